@@ -51,6 +51,8 @@ Fixpoint nwad (dropped : bool) (h : list op) : Prop :=
   | HSync :: tl => nwad false tl
   | HRead _ _ :: tl => nwad false tl
   | HServe :: tl => nwad dropped tl
+  | HRestart :: tl => nwad dropped tl
+  | HDescribe :: tl => nwad false tl
   end.
 Definition no_write_after_drop (h : list op) : Prop := nwad false h.
 
@@ -73,7 +75,7 @@ Proof.
 Qed.
 Lemma op_okb_ok o : op_okb o = true -> op_ok o.
 Proof.
-  destruct o as [segs| | | |o1 o2]; cbn; intros H; try exact I.
+  destruct o as [segs| | | |o1 o2| |]; cbn; intros H; try exact I.
   - apply (forallb_Forall _ _ _ (fun sg E => forallb_Forall int64_okb int64_ok (sg_ts sg) int64_okb_ok E) H).
   - apply andb_true_iff in H as [H1 H2]. split; intros t ->; apply int64_okb_ok; assumption.
 Qed.
@@ -137,6 +139,8 @@ Fixpoint nwadb (dropped : bool) (h : list op) : bool :=
   | HSync :: tl => nwadb false tl
   | HRead _ _ :: tl => nwadb false tl
   | HServe :: tl => nwadb dropped tl
+  | HRestart :: tl => nwadb dropped tl
+  | HDescribe :: tl => nwadb false tl
   end.
 Lemma nwadb_ok h : forall dropped, nwadb dropped h = true -> nwad dropped h.
 Proof.
